@@ -106,6 +106,16 @@ func (g *sysGen) names() []sysName {
 	return ns
 }
 
+// name2 draws a second name for statements that touch two; never IFS (see
+// core: its value must stay free of hexadecimal digits).
+func (g *sysGen) name2() string {
+	for {
+		if n := g.name().n; n != "IFS" {
+			return n
+		}
+	}
+}
+
 func (g *sysGen) pick(xs ...string) string { return xs[g.r.Intn(len(xs))] }
 
 func (g *sysGen) name() sysName {
@@ -187,6 +197,13 @@ func (g *sysGen) core() string {
 	}
 	v := g.name()
 	n, k := v.n, v.kind
+	if n == "IFS" {
+		// Values without hexadecimal digits only: the interpreter splits
+		// the result of an unquoted <( ) on IFS, and the FIFO's path ends in
+		// a random hexadecimal number, so an IFS of "07" would make runs
+		// differ from one process to the next.
+		return g.pick("IFS=:", "IFS=',;'", "IFS=''", "IFS=", "IFS=x", "IFS=' '", "unset IFS", "IFS=$'\\n'", "IFS=-", "IFS+=:", "export IFS=:", "local IFS=: 2>/dev/null", "IFS=: read x2 rest <<< 'p:q r'", "declare IFS=,", "readonly IFS=: 2>/dev/null")
+	}
 	switch g.r.Intn(35) {
 	case 0:
 		return fmt.Sprintf("%s=%s", n, g.val())
@@ -239,7 +256,7 @@ func (g *sysGen) core() string {
 		case 2:
 			return fmt.Sprintf("%s%s %s=(%s)", cmd, flags, n, g.elems(k))
 		default:
-			return fmt.Sprintf("%s%s %s %s=%s", cmd, flags, n, g.name().n, g.val())
+			return fmt.Sprintf("%s%s %s %s=%s", cmd, flags, n, g.name2(), g.val())
 		}
 	case 15:
 		return g.pick(
@@ -355,7 +372,7 @@ func (g *sysGen) core() string {
 		return g.pick("exit", "exit 3", "return 2>/dev/null", "return 4 2>/dev/null", "break 2>/dev/null", "continue 2>/dev/null", "exit $?", "false || exit 5", "set -e; false", ": ${u9?unset-error}", "set -u; : $u9", "readonly rr=1; rr=2")
 	case 32:
 		// two names at once
-		n2 := g.name().n
+		n2 := g.name2()
 		return g.pick(
 			fmt.Sprintf("%s=%s %s=$%s", n, g.val(), n2, n),
 			fmt.Sprintf("%s=(\"${%s[@]}\")", n, n2),
@@ -375,6 +392,9 @@ func (g *sysGen) core() string {
 // simpleAssign is a quote-free assignment usable inside '...'.
 func (g *sysGen) simpleAssign() string {
 	v := g.name()
+	for v.n == "IFS" { // "IFS=t3" would put a digit into IFS, see core
+		v = g.name()
+	}
 	return g.pick(
 		fmt.Sprintf("%s=t%d", v.n, g.r.Intn(9)),
 		fmt.Sprintf("%s+=t", v.n),
@@ -478,9 +498,9 @@ func (g *sysGen) Stmt() string {
 	case 23:
 		fn := g.pick("fw", "fl")
 		if g.r.Chance(1, 2) {
-			return fn + "() {\nlocal " + g.name().n + "\n" + s + "\n}; " + fn
+			return fn + "() {\nlocal " + g.name2() + "\n" + s + "\n}; " + fn
 		}
-		return fn + "() {\nlocal " + g.name().n + "=lv\n" + s + "\n}; " + fn
+		return fn + "() {\nlocal " + g.name2() + "=lv\n" + s + "\n}; " + fn
 	case 24:
 		if oneLine {
 			return "set -x; " + s + "; set +x"
